@@ -12,8 +12,8 @@ import (
 
 // R2: the substr(start[,end]) modifier on header values of any length, applied twice.
 func HarnessC19Substr() {
-	start := vNondetInt("start", -6, 6)
-	end := vNondetInt("end", -6, 6)
+	start := vNondetInt("start", -vHi(6, 12), vHi(6, 12))
+	end := vNondetInt("end", -vHi(6, 12), vHi(6, 12))
 	two := vNondetBool("twoargs")
 	args := []string{strconv.Itoa(int(start))}
 	if two {
@@ -25,8 +25,8 @@ func HarnessC19Substr() {
 	if err != nil {
 		return
 	}
-	l1 := int(vConcretize(vNondetInt("len1", 0, 4)))
-	l2 := int(vConcretize(vNondetInt("len2", 0, 4)))
+	l1 := int(vConcretize(vNondetInt("len1", 0, vHi(4, 8))))
+	l2 := int(vConcretize(vNondetInt("len2", 0, vHi(4, 8))))
 	v1 := vNondetString("v1", l1)
 	v2 := vNondetString("v2", l2)
 	r1 := f(v1) // implicit: no out-of-range slice
@@ -40,7 +40,7 @@ func HarnessC19Substr() {
 
 // R1/R2 through Process: a header shorter than the configured substring.
 func HarnessC19VarHeaderProcess() {
-	l := int(vConcretize(vNondetInt("len", 0, 4)))
+	l := int(vConcretize(vNondetInt("len", 0, vHi(4, 8))))
 	val := vNondetString("val", l)
 	for i := 0; i < l; i++ {
 		vAssume(val[i] >= 'a' && val[i] <= 'z')
